@@ -184,7 +184,7 @@ fn exec_inner(fam: Fam, n: usize, slots: &[T], st: &Step) -> (Outcome, Option<T>
             Ok(t) => tab(t),
             Err(()) => (Outcome::ParseErr, None),
         },
-        Op::AllFunctionsNth(k) => match f.all_functions(n).nth(*k) {
+        Op::AllFunctionsNth(k) => match f.all_functions_nth(n, *k) {
             Some(t) => tab(t),
             None => (Outcome::ParseErr, None),
         },
